@@ -190,3 +190,52 @@ Definition enter (op kind : N) (caller : st) (callee : func) (new_base : N) : st
      s_nconsts := len (f_consts callee);
      s_uplen := if kind =? 1 then f_nup callee else 0;
      s_cachelen := s_cachelen caller |}.
+
+(* ---- the loop as a machine over frames: values abstracted, control flow nondeterministic ------- *)
+Record frame := { fr_fn : func; fr_st : st }.
+
+Definition set_ip (s : st) (t : N) : st :=
+  {| s_ip := t; s_bclen := s_bclen s; s_base := s_base s; s_regslen := s_regslen s; s_clen := s_clen s;
+     s_nconsts := s_nconsts s; s_uplen := s_uplen s; s_cachelen := s_cachelen s |}.
+
+(* registers.len() and call_site_cache.len() change under the loop's feet (resize, clear) *)
+Definition set_env (s : st) (regslen cachelen : N) : st :=
+  {| s_ip := s_ip s; s_bclen := s_bclen s; s_base := s_base s; s_regslen := regslen; s_clen := s_clen s;
+     s_nconsts := s_nconsts s; s_uplen := s_uplen s; s_cachelen := cachelen |}.
+
+(* Return / Return0 / running off the end reload the caller's locals from its frame *)
+Definition resume (callee caller : st) : st :=
+  if return_restores_clen then caller
+  else {| s_ip := s_ip caller; s_bclen := s_bclen caller; s_base := s_base caller; s_regslen := s_regslen caller;
+          s_clen := s_clen callee; s_nconsts := s_nconsts caller; s_uplen := s_uplen caller; s_cachelen := s_cachelen caller |}.
+
+(* VM::execute: frame built from the function object itself *)
+Definition init_st (f : func) (regslen cachelen : N) : st :=
+  {| s_ip := 0; s_bclen := len (f_code f); s_base := 0; s_regslen := regslen; s_clen := len (f_consts f);
+     s_nconsts := len (f_consts f); s_uplen := 0; s_cachelen := cachelen |}.
+
+Definition is_call_op (op : N) : bool := existsb (fun e : N * N * bool => fst (fst e) =? op) call_paths.
+
+Inductive mstep : list frame -> list frame -> Prop :=
+  | ms_next : forall fr rest t,                                   (* fall through or jump inside the function *)
+      In t (succs (f_code (fr_fn fr)) (s_ip (fr_st fr))) ->
+      mstep (fr :: rest) ({| fr_fn := fr_fn fr; fr_st := set_ip (fr_st fr) t |} :: rest)
+  | ms_env : forall fr rest r c,
+      mstep (fr :: rest) ({| fr_fn := fr_fn fr; fr_st := set_env (fr_st fr) r c |} :: rest)
+  | ms_call : forall fr rest w kind callee b,                      (* every call path verifies its callee first *)
+      nthN (f_code (fr_fn fr)) (s_ip (fr_st fr)) = Some w -> is_call_op (w_op w) = true ->
+      w_op w <> OP_TailCallUpval -> verify callee = VOk ->
+      mstep (fr :: rest)
+            ({| fr_fn := callee; fr_st := enter (w_op w) kind (fr_st fr) callee b |}
+             :: {| fr_fn := fr_fn fr; fr_st := set_ip (fr_st fr) (s_ip (fr_st fr) + adv_of w) |} :: rest)
+  | ms_tail : forall fr rest w kind callee b,                      (* TailCallUpval reuses the frame *)
+      nthN (f_code (fr_fn fr)) (s_ip (fr_st fr)) = Some w -> w_op w = OP_TailCallUpval -> verify callee = VOk ->
+      mstep (fr :: rest) ({| fr_fn := callee; fr_st := enter (w_op w) kind (fr_st fr) callee b |} :: rest)
+  | ms_ret : forall fr caller rest,
+      mstep (fr :: caller :: rest)
+            ({| fr_fn := fr_fn caller; fr_st := resume (fr_st fr) (fr_st caller) |} :: rest)
+  | ms_exit : forall fr, mstep [fr] [].
+
+Inductive mreach (f : func) : list frame -> Prop :=
+  | mr_init : forall r c, mreach f [{| fr_fn := f; fr_st := init_st f r c |}]
+  | mr_step : forall c1 c2, mreach f c1 -> mstep c1 c2 -> mreach f c2.
